@@ -5,7 +5,10 @@ receive functions), (b) in non-real-time mode (`main.process(tail).list/.raw`).
 One process hosts one mode: `run_rt` / `run_nrt`.
 
 Case (JSON): {'tempo': 'p/q', 'main': [[kind, value]...], 'routines': [{'clock': 's'|'t',
- 'start': 'p/q', 'steps': [['w','p/q'] | ['b', bundle] | ['m', msg]]}], 'late': 'p/q', 'tail': 'p/q'}
+ 'start': 'p/q', 'steps': [['w','p/q'] | ['b', bundle] | ['m', msg] | ['bind', latency, [msg..], i]]}],
+ 'late': 'p/q', 'tail': 'p/q'}
+`bind`: `server.latency = latency; with server.bind(): server.addr.send_msg(*msg) ...` (message number i, if
+any, goes through `server.addr.send_bundle(5, msg)` whose time the proxy discards): one bundle at latency.
 Values: null | int | {'f': 'p/q'} | {'s': text} | [..].
 """
 import struct
@@ -84,7 +87,22 @@ def do_send(S, who, k, kind, val, t0, log, obj=None):
         rec['now'] = fr(Fr(vt.now) - Fr(t0))
     try:
         v = pv(val) if obj is None else obj
-        if kind in ('b', 'B'):
+        if kind == 'bind':
+            from sc3.synth import server as srv
+            server = srv.Server.default
+            lat, msgs, inner = v
+            old = server.latency
+            server.latency = lat
+            try:
+                with server.bind():
+                    for i, m in enumerate(msgs):
+                        if i == inner:
+                            server.addr.send_bundle(5, m)
+                        else:
+                            server.addr.send_msg(*m)
+            finally:
+                server.latency = old
+        elif kind in ('b', 'B'):
             S['addr'].send_bundle(v[0], *v[1:])
         else:
             S['addr'].send_msg(*v)
@@ -110,6 +128,8 @@ def make_routine(S, rid, steps, t0, log, fn=False):
                     if s_[1] is not None:
                         st['shared'] = pv(s_[1])
                     do_send(S, rid, k, 'B', s_[1], t0, log, obj=st['shared'])
+                elif s_[0] == 'bind':
+                    do_send(S, rid, k, 'bind', s_[1:], t0, log)
                 else:
                     do_send(S, rid, k, s_[0], s_[1], t0, log)
             return None
@@ -125,6 +145,8 @@ def make_routine(S, rid, steps, t0, log, fn=False):
                 if st[1] is not None:
                     shared = pv(st[1])
                 do_send(S, rid, k, 'B', st[1], t0, log, obj=shared)
+            elif st[0] == 'bind':
+                do_send(S, rid, k, 'bind', st[1:], t0, log)
             else:
                 do_send(S, rid, k, st[0], st[1], t0, log)
     gen.__qualname__ = f'routine{rid}'
@@ -148,8 +170,8 @@ def run_rt_case(c):
     log = []
     tempo = clk.TempoClock(num(c['tempo']))
     vt.settle()
-    for k, (kind, val) in enumerate(c['main']):
-        do_send(S, 'main', k, kind, val, t0, log)
+    for k, st in enumerate(c['main']):
+        do_send(S, 'main', k, st[0], st[1:] if st[0] == 'bind' else st[1], t0, log)
     for rid, r in enumerate(c['routines']):
         clock = clk.SystemClock if r['clock'] == 's' else tempo
         clock.sched(num(r['start']), make_routine(S, rid, r['steps'], t0, log, r.get('fn', False)))
@@ -201,8 +223,8 @@ def run_nrt_case(c):
     main.reset()
     log = []
     tempo = clk.TempoClock(num(c['tempo']))
-    for k, (kind, val) in enumerate(c['main']):
-        do_send(S, 'main', k, kind, val, 0.0, log)
+    for k, st in enumerate(c['main']):
+        do_send(S, 'main', k, st[0], st[1:] if st[0] == 'bind' else st[1], 0.0, log)
     for rid, r in enumerate(c['routines']):
         clock = clk.SystemClock if r['clock'] == 's' else tempo
         clock.sched(num(r['start']), make_routine(S, rid, r['steps'], 0.0, log, r.get('fn', False)))
